@@ -417,6 +417,7 @@ func runSyslogFifo(chunks []string, pauses []int, writeOK bool) string {
 			res = "R:other"
 		}
 	case <-time.After(20 * time.Second):
+		noteHang()
 		cancel()
 	}
 	close(stopRecv)
@@ -453,6 +454,10 @@ func init() {
 						pauses = append(pauses, n)
 					}
 				}
+			}
+			if overHangBudget() {
+				fmt.Fprintf(out, "%s !stall:skipped-after-hangs\n", f[0])
+				continue
 			}
 			fmt.Fprintf(out, "%s %s\n", f[0], runSyslogFifo(chunks, pauses, f[1] == "ok"))
 			out.Flush()
